@@ -81,6 +81,8 @@ COMMON = [
     "forall(x, Layer, implies(x in layer_names, exists(u, Int, 0 <= u and u < len(_it1) and _it1[u] == x)))",
     "forall(n, Str, implies(n in %s and layer_of(n) == UnitTests, _it1[0] == UnitTests))" % T,
 ]
+HASPOS = lambda n: ("(%s in G.pos and %s <= G.pos[%s] and G.pos[%s] < len(%s) and %s[G.pos[%s]][0] == %s)"
+                    % (n, OFF, n, n, Y, Y, n, n))
 DONE = lambda i: "exists(u, Int, 0 <= u and u < %s and _it1[u] == %%s)" % i
 
 ORDERED = {
@@ -90,8 +92,10 @@ ORDERED = {
     'self_fields': {'options': 'Rec[Options]', 'tests_by_layer_name': 'Dict[Str,Suite]'},
     'returns': 'List[Tuple[Str,Layer,Suite]]',
     'locals': {'layer_names': 'Dict[Layer,Str]'},
+    'ghost': {'pos': 'Dict[Str,int]'},            # where each name was yielded (explicit witness instead of an existential)
+    'ghost_code': {'yield (layer_name, layer, self.tests_by_layer_name[layer_name])': ['G.pos[layer_name] = len(G.__yield__) - 1']},
     'requires': ["WF()"],
-    'modifies': [],
+    'modifies': ['G.pos'],
     'ensures': [
         # one group per registered layer name: nothing invented, nothing lost, none twice -- also when several names
         # denote one layer object
@@ -115,17 +119,14 @@ ORDERED = {
     'loops': {
         '#loop1': COMMON + [
             "forall(a, Int, implies(%s, %s))" % (RNG('a'), DONE('_i1') % (Y + '[a][1]')),
-            "forall(n, Str, implies(n in %s and %s, exists(a, Int, %s and %s[a][0] == n)))"
-            % (T, DONE('_i1') % 'layer_of(n)', RNG('a'), Y),
+            "forall(n, Str, implies(n in %s and %s, %s))" % (T, DONE('_i1') % 'layer_of(n)', HASPOS('n')),
         ],
         '#loop2': COMMON + [
             "0 <= _i1 and _i1 < len(_it1) and layer == _it1[_i1]",
             "forall(a, Int, implies(%s, %s or (%s[a][1] == layer and"
             " exists(q, Int, 0 <= q and q < _i2 and _it2[q] == %s[a][0]))))" % (RNG('a'), DONE('_i1') % (Y + '[a][1]'), Y, Y),
-            "forall(n, Str, implies(n in %s and %s, exists(a, Int, %s and %s[a][0] == n)))"
-            % (T, DONE('_i1') % 'layer_of(n)', RNG('a'), Y),
-            "forall(q, Int, implies(0 <= q and q < _i2 and layer_of(_it2[q]) == layer, exists(a, Int, %s and %s[a][0] == _it2[q])))"
-            % (RNG('a'), Y),
+            "forall(n, Str, implies(n in %s and %s, %s))" % (T, DONE('_i1') % 'layer_of(n)', HASPOS('n')),
+            "forall(q, Int, implies(0 <= q and q < _i2 and layer_of(_it2[q]) == layer, %s))" % HASPOS('_it2[q]'),
             # the sorted names: exactly the registered names, each once
             "forall(q, Int, implies(0 <= q and q < len(_it2), _it2[q] in %s))" % T,
             "forall(n, Str, implies(n in %s, exists(q, Int, 0 <= q and q < len(_it2) and _it2[q] == n)))" % T,
